@@ -35,23 +35,36 @@ func (Engine) Decode(raw json.RawMessage) (any, error) {
 
 // Generate implements simkit.Engine.
 func (Engine) Generate(cfg simkit.RunConfig) (any, bool) {
-	switch cfg.Mode {
+	// a mode name ending in "-R" runs on the reference backend (all commit modes: 2PC, async commit, 1PC)
+	backend := "M"
+	mode := cfg.Mode
+	if strings.HasSuffix(mode, "-R") {
+		backend = "R"
+		mode = strings.TrimSuffix(mode, "-R")
+	}
+	c2 := cfg
+	c2.Mode = mode
+	async, onepc := 0.0, 0.0
+	if backend == "R" {
+		async, onepc = 0.4, 0.3
+	}
+	switch mode {
 	case "", "workload":
-		return genWorkload(cfg, genOpts{maxTxns: 6, pessRate: 0.4, faults: true, topo: true, backend: "M"}), true
+		return genWorkload(c2, genOpts{maxTxns: 6, pessRate: 0.4, faults: true, topo: true, backend: backend, asyncRate: async, onePCRate: onepc}), true
 	case "nofault":
-		return genWorkload(cfg, genOpts{maxTxns: 6, pessRate: 0.4, faults: false, topo: true, backend: "M"}), true
+		return genWorkload(c2, genOpts{maxTxns: 6, pessRate: 0.4, faults: false, topo: true, backend: backend, asyncRate: async, onePCRate: onepc}), true
 	case "crash", "crashfaults":
-		return genCrash(cfg, "M"), true
+		return genCrash(c2, backend), true
 	case "faults":
-		return genFaults(cfg, "M"), true
+		return genFaults(c2, backend), true
 	case "leftover":
-		return genLeftover(cfg, "M"), true
+		return genLeftover(c2, backend), true
 	case "reads":
-		return genReads(cfg, "M"), true
+		return genReads(c2, backend), true
 	case "ryw":
-		return genRYW(cfg, "M"), true
+		return genRYW(c2, backend), true
 	case "gc":
-		return genGC(cfg, "M"), true
+		return genGC(c2, backend), true
 	}
 	panic("unknown mode " + cfg.Mode)
 }
@@ -68,6 +81,7 @@ func (Engine) Cleanup(cfg simkit.RunConfig, scenario any) {}
 // Execute implements simkit.Engine.
 func (Engine) Execute(t *testing.T, cfg simkit.RunConfig, scenario any) *simkit.RunResult {
 	sc := scenario.(*Scenario)
+	cfg.Mode = strings.TrimSuffix(cfg.Mode, "-R")
 	s := simkit.New(cfg.Seed)
 	res := &simkit.RunResult{}
 	var w *World
@@ -185,6 +199,11 @@ func (Engine) Execute(t *testing.T, cfg simkit.RunConfig, scenario any) *simkit.
 			sig = "riter-unbounded-upper " + sig
 		}
 		vs = append(vs, simkit.Violation{Property: "C01", Class: "backend-panic", Sig: sig, Detail: p})
+	}
+	if w.ref != nil {
+		for _, m := range w.ref.Misrouted {
+			vs = append(vs, simkit.Violation{Property: "C01", Class: "misrouted-request", Sig: firstWords(m, 2), Detail: m})
+		}
 	}
 	if s.Aborted == "" {
 		c := &checker{prop: cfg.Property, truth: truth, hist: w.Hist, trace: trace, mock: sc.Backend == "M" || sc.Backend == ""}
